@@ -280,6 +280,11 @@ func namedContexts() []gType {
 	var out []gType
 	for _, g := range namedBasics() {
 		out = append(out, g, structOf(g), structOf(baseTypes()[3], g), sliceOf(g), arrayOf(2, g))
+		// ... and nested: slices of structs of it, structs of slices / arrays of it, next to every basic kind
+		out = append(out, sliceOf(structOf(g)), structOf(sliceOf(g)), structOf(arrayOf(2, g)), arrayOf(2, sliceOf(g)))
+		for _, b := range baseTypes() {
+			out = append(out, structOf(g, b), structOf(b, g), sliceOf(structOf(b, g)))
+		}
 	}
 	return out
 }
